@@ -95,6 +95,7 @@ type Prod struct {
 	PosStyle int     `json:"pos_style"` // 0 plain Pos/EndPos/Tokens, 1 embedded mixin, 2 convertible position type, 3 none
 	TagStyle int     `json:"tag_style"` // 0 whole tag, 1 parser:"..."
 	Tight    bool    `json:"tight"`     // omit optional whitespace between tag tokens
+	Embed    int     `json:"embed,omitempty"` // Go-source rendering: the first Embed fields live in an embedded named struct
 }
 
 type Union struct {
@@ -140,7 +141,15 @@ type tagTok struct {
 
 func quoteLit(e *Expr) string {
 	var s string
+	plain := true
+	for _, r := range e.S {
+		if r < 0x20 || r == 0x7f {
+			plain = false
+		}
+	}
 	switch {
+	case !plain:
+		s = strconv.Quote(e.S)
 	case e.Style%3 == 1 && !strings.ContainsAny(e.S, `'\`) && e.S != "":
 		s = "'" + e.S + "'"
 	case e.Style%3 == 2 && !strings.ContainsAny(e.S, "`"):
